@@ -492,16 +492,57 @@ package raft
 
 // lock file (T-fs: os.Link fails atomically when the lock exists): locked[d] = directory d is held
 //@ ghost var locked map[uint64]bool
-//@ func lockDir
-//@   trusted
+// Callers see the lock through the ghost map `locked` (trusted abstract views, T-abs); lockDir / unlockDir
+// themselves are proved against the file-system ghost: the lock is the file <abs dir>/lock, taken by the
+// atomic os.Link of a private temporary file (T-fs).
+//@ view lockDir at SetIdentity
 //@   modifies locked
 //@   ensures result0 == nil ==> !old(locked[dir]) && locked[dir]
 //@   ensures result0 != nil ==> locked[dir] == old(locked[dir])
 //@   ensures forall(d, d != dir ==> locked[d] == old(locked[d]))
-//@ func unlockDir
-//@   trusted
+//@ view unlockDir at SetIdentity, SetIdentity$1
 //@   modifies locked
 //@   ensures !locked[dir] && forall(d, d != dir ==> locked[d] == old(locked[d]))
+
+//@ ghost func gabs(string) uint64
+//@ pure LockPath(d string) uint64 = pjoin(gabs(d), "lock")
+//@ axiom [T-std.lockfile-name] forall(d, pkind(pjoin(d, "lock")) == 4)
+//@ func path/filepath.Abs
+//@   trusted
+//@   ensures result1 == nil ==> result0 == gabs(path)
+// T-fs: a new, private temporary file (its name is not the lock's)
+//@ func io/ioutil.TempFile
+//@   trusted
+//@   modifies fs, fdone, fsize
+//@   ensures result1 != nil ==> result0 == nil && fs == old(fs)
+//@   ensures result1 == nil ==> result0 != nil && isfresh(result0) && result0.gwr && pkind(result0.gpath) == 5 && !old(fs[result0.gpath]) && fs[result0.gpath] && forall(p, p != result0.gpath ==> fs[p] == old(fs[p]))
+//@ func os.Getpid
+//@   trusted
+// T-fs: link(2) is atomic and fails when the new name exists
+//@ ghost func gexist(uint64) bool
+//@ func os.Link
+//@   trusted
+//@   modifies fs
+//@   ensures result0 == nil ==> !old(fs[newname]) && fs[newname] && forall(p, p != newname ==> fs[p] == old(fs[p]))
+//@   ensures result0 != nil ==> fs == old(fs)
+//@ func os.IsExist
+//@   trusted
+//@ func os.Lstat
+//@   trusted
+//@ func os.SameFile
+//@   trusted
+
+//@ func lockDir
+//@   modifies fs, fdone, fsize, wdata, wlen
+//@   ensures [C20.lock-acquired] result0 == nil ==> !old(fs[LockPath(dir)]) && fs[LockPath(dir)]
+//@   ensures [C20.lock-not-disturbed] result0 != nil && old(fs[LockPath(dir)]) ==> fs[LockPath(dir)]
+//@   ensures [C20.lock-only] forall(p, pkind(p) != 4 && pkind(p) != 5 ==> fs[p] == old(fs[p]))
+//@   ensures forall(p, pkind(p) == 4 && p != LockPath(dir) ==> fs[p] == old(fs[p]))
+
+//@ func unlockDir
+//@   modifies fs
+//@   ensures [C20.lock-released] result0 == nil ==> !fs[pjoin(dir, "lock")]
+//@   ensures forall(p, p != pjoin(dir, "lock") ==> fs[p] == old(fs[p]))
 
 // openValue (trusted here; T-fs): returns the single value file of (dir, ext), creating
 // "0-0<ext>" only when none exists.
